@@ -128,6 +128,10 @@ KStep(s, e) ==
          [] e.ev = "raise" -> KRaise(s, e)
          [] e.ev = "tsend" -> IF s.closing /\ s.due = <<>> THEN Fail(s, "C08.write_while_waiting_for_the_closing_handshake")
                               ELSE StepTSend(s, e)
+         [] e.ev = "tsendfail" ->     \* the transport refuses the write: close() gives up the handshake, other calls fail with its error
+              IF s.due = <<>> \/ Head(s.due).k # "send" THEN Fail(s, "C08.unexpected_write")
+              ELSE IF s.closing THEN Res([s EXCEPT !.due = <<>>], TRUE, "")
+              ELSE Res([s EXCEPT !.due = <<DRaise("Transport")>>], TRUE, "")
          [] e.ev \in {"trecv", "ttimeout", "teof", "terr"} ->
               IF s.closing THEN KClosingRead(s, e)
               ELSE IF ~s.sockOpen THEN Fail(s, "C08.transport_touched_after_close")
